@@ -44,7 +44,7 @@ THEOREMS = ["C20_corr",
             "C20_labels_proportion",
             "C20_labels_proportion_partial",
             "C20_labels_cumulative",
-            "C20_labels_ndarray_note",
+            "C20_labels_ndarray_note", "C20_labels_valid_sound",
             "C20_noise_cat",
             "C20_noise_cat_check_sound",
             "C20_noise_cat_progress", "C20_noise_slices_prefix_refuted",
@@ -412,6 +412,15 @@ def gen_history(rng, big):
     results, or earlier inputs / integer outputs, possibly with permuted rows or columns"""
     steps, shapes_in, shapes_out = [], [], []
     base_nr, base_nc = rng.choice([6, 8, 10, 12, 16]), rng.randint(2, 4)
+    if rng.random() < 0.25:
+        # the generator's own output with a large value domain goes straight into the linear labelling (decision = sum(2x+3))
+        n = rng.choice([2, 3])
+        steps.append({"kind": "labels", "n": n, "relation": "linear", "k": 2,
+                      "p": {"v": [8, 16], "as": "scalar"} if n == 2 else {"v": dyadic_dist(rng, n, 16), "as": rng.choice(["list", "array"])},
+                      "X_from": {"gen": {"n_features": base_nc, "n_samples": base_nr + 8, "cardinality": rng.choice([130, 200, 250]),
+                                         "seed": rng.randint(0, 999)}}})
+        shapes_in.append((base_nr + 8, base_nc))
+        shapes_out.append(None)
     for _ in range(rng.randint(3, 7)):
         # ---- choose the input
         cands = [(i, "in", shapes_in[i]) for i in range(len(steps))] + [(i, "out", shapes_out[i]) for i in range(len(steps)) if shapes_out[i]]
@@ -419,7 +428,8 @@ def gen_history(rng, big):
         if not cands or mode < 0.35:
             nr, nc = (base_nr, base_nc) if rng.random() < 0.7 else (rng.randint(5, 14), rng.randint(2, 4))
             if rng.random() < 0.25:
-                src, lit = {"gen": {"n_features": nc, "n_samples": nr, "cardinality": rng.randint(4, 9), "seed": rng.randint(0, 999)}}, None
+                src, lit = {"gen": {"n_features": nc, "n_samples": nr, "cardinality": rng.choice([4, 6, 9, 60, 130, 250]),
+                                    "seed": rng.randint(0, 999)}}, None
             else:
                 src, lit = None, nonconstant_matrix(rng, nr, nc)
         else:
@@ -807,7 +817,13 @@ def build_expr(case, res):
             rec = ([frac(v) for v in pct[0]["q"]], [frac(v) * L for v in pct[0]["cuts"]])
         ctx["recorded"] = rec is not None
         if rec is None:
-            orac = "(BadOracle, BadOracle)"
+            # np.percentile / np.quantile not observed: the property-level Coq validator judges the labels
+            yy = int_cells([res["y"]]) if "y" in res else None
+            reqp = label_percents(case["n"], case["p"])
+            if yy is not None and reqp is not None:
+                orac = "(labels_valid %s %s %s, true)" % (dz, qll(reqp), zl(yy[0]))
+            else:
+                orac = "(false, true)"
         else:
             oargs = "%s %s %s %s %s" % (dz, z(case["n"]), pspec_coq(case["p"]), qll(rec[0]), qll(rec[1]))
             orac = "(%s, %s)" % ("gen_labels_o false " + oargs if PINNED_VARIANTS["honour"] is not True else "(@BadOracle (list Z))",
@@ -878,10 +894,10 @@ def info_of_model(t):
 def info_of_impl(j):
     return {
         "combinations": j["combinations"],
-        "correlations": [dict(e, correlation_factor=fr_of(e["correlation_factor"])) for e in j["correlations"]],
+        "correlations": [dict(e, correlation_factor=None if e["correlation_factor"] is None else fr_of(e["correlation_factor"])) for e in j["correlations"]],
         "duplicates": j["duplicates"],
         "labels": j["labels"],
-        "noise": [dict(e, amount=fr_of(e["amount"])) for e in j["noise"]],
+        "noise": [dict(e, amount=None if e["amount"] is None else fr_of(e["amount"])) for e in j["noise"]],
         "downsampling": j["downsampling"],
     }
 
@@ -1039,8 +1055,12 @@ def judge(case, res, val, ctx, stats):
                     {"requested_percents": None if req is None else [str(v) for v in req]})
             else:
                 bad("labels correspondence", "model rejects a call the implementation accepted", res.get("y"))
-        elif not ctx.get("robust"):
-            stats["labels_unrecorded_unchecked"] = stats.get("labels_unrecorded_unchecked", 0) + 1
+        else:
+            stats["labels_percentile_not_observed_validator"] = stats.get("labels_percentile_not_observed_validator", 0) + 1
+            if orac[0] is not True:
+                bad("C20_labels_valid (Coq validator on the implementation's labels)",
+                    "labels are a monotone step function of the decision value with the requested class proportions (give or take one "
+                    "element on tie-free data)", iy, {"requested_percents": [str(v) for v in (label_percents(case["n"], case["p"]) or [])]})
         # (b) exact rational model of np.percentile: whenever the double computation is provably exact
         if ctx.get("robust") and not (scalar_gt2 and modes["honour"]):
             stats["labels_exact_model_checked"] = stats.get("labels_exact_model_checked", 0) + 1
@@ -1250,7 +1270,7 @@ def choose_modes(cases, res, vmap, effs, stats):
             iy = iy[0] if iy else None
             for b in (0, 1):
                 o = v[2][b]
-                votes["honour"][b] += 1 if (o[0] == "Ok" and list(o[1]) == iy) else 0
+                votes["honour"][b] += 1 if (isinstance(o, tuple) and o[0] == "Ok" and list(o[1]) == iy) else 0
 
     for i, (c, r) in enumerate(zip(cases, res)):
         if c["kind"] == "history":
@@ -1428,10 +1448,14 @@ def check(run, replay):
     judged = stats.get("_judged", {})
     quiet, loud = {}, {}
     for kind, lst in fb.items():
-        if len(lst) == judged.get(kind, 0) and all(first for _, first in lst):
-            quiet[kind] = len(lst)
-        else:
-            loud[kind] = lst
+        # the expected oracle call did not occur (first RNG / resample call absent or of another kind): the property-level Coq
+        # validator has judged the output and accepted it -> quiet.  A replay that starts as expected and then differs -> loud.
+        q = [c for c, first in lst if first]
+        l = [(c, first) for c, first in lst if not first]
+        if q:
+            quiet[kind] = "%d of %d" % (len(q), judged.get(kind, 0))
+        if l:
+            loud[kind] = l
     run.oblige("trace replay reproduces every noise / down-sampling output (or the call pattern changed globally and the Coq validators accept all)",
                not loud, "" if not loud else "; ".join("%s: %d of %d cases not reproduced" % (k, len(v), judged.get(k, 0)) for k, v in loud.items()))
     for kind, lst in loud.items():
@@ -1440,8 +1464,8 @@ def check(run, replay):
                       case=lst[0][0], clause="model = implementation on the recorded answers (first cases: %s)" %
                       json.dumps([c for c, _ in lst[:3]])[:1500], found_input=False)
     if quiet:
-        run.notes.append("library call pattern changed globally for %s: every case mismatches at its first RNG call; decided by the Coq "
-                         "validators (C20_*_check_sound), all accepted" % quiet)
+        run.notes.append("expected oracle calls did not occur for %s (library call pattern changed); those cases were decided by the "
+                         "property-level Coq validators (C20_*_check_sound), all accepted" % quiet)
     stats["validator_fallback"] = {"quiet": quiet, "loud": {k: len(v) for k, v in loud.items()}}
     for k in ("_fallback", "_judged", "_modes"):
         stats.pop(k, None)
